@@ -1020,6 +1020,53 @@ theorem C14_pass_complete (bs : List (List Nat)) :
       omega
 
 
+/-- **C14_loader_cover**: with incomplete batches kept, the batches of an epoch - length buckets
+(`C14_cover_keep` composed with the bucket parameters) or torch's `BatchSampler` - are a
+rearrangement of the samples the epoch sampler produced for this rank: every index in exactly one
+batch. -/
+theorem C14_loader_cover (lens : List Nat) (nb B : Nat) (dynamic : Bool) (order : List Nat)
+    (bs : List (List Nat)) (hB : 0 < B)
+    (h : loaderBatches lens nb B dynamic false order = .ok (bs, none)) : bs.flatten.Perm order := by
+  unfold loaderBatches at h
+  by_cases hnb : nb > 1
+  · simp only [hnb, if_true] at h
+    cases hp : bucketParams lens nb B dynamic with
+    | error e => simp [hp] at h
+    | ok p =>
+      simp only [hp] at h
+      exact C14_cover_keep _ _ order bs (Except.ok.inj h)
+  · simp only [hnb, if_false] at h
+    have : bs = plainIter B false order := (congrArg Prod.fst (Except.ok.inj h)).symm
+    rw [this]
+    simp only [plainIter, Bool.false_eq_true, if_false, chunks]
+    rw [chunksAux_flatten hB _ _ (Nat.le_refl _)]
+
+
+/-- **C14_interleaved_cover** (the property's cover clause for a pass that was interleaved with
+anything): after any script `pre`, `loader.epoch = e; it = iter(loader); next(it)` and any script
+`post` that advances `it` at least as often as the epoch has batches: what `it` delivered is the
+epoch's batches `bs` in order followed by StopIteration only, and `bs` holds every sample of the
+epoch exactly once (`drop_last` off) - no index repeated, none lost, whatever was interleaved. -/
+theorem C14_interleaved_cover (perm : Nat → List Nat) (cfg : LoaderCfg) (sc : EpochSampler.Config)
+    (pre post : List IOp) (e₀ e : Nat) (bs : List (List Nat)) (hB : 0 < cfg.B)
+    (hdrop : cfg.drop = false) (h : epochBatches cfg sc (perm e) = .ok (bs, none)) :
+    let s := (Session.exec perm pre (Session.new ⟨cfg, ⟨sc, e₀⟩⟩)).2
+    let k := s.iters.length
+    bs.length ≤ 1 + post.count (.next k) →
+    deliveredBy k (Session.exec perm (.setEpoch e :: .newIter :: .next k :: post) s).1
+      = bs.map (fun b => Out.batch (.ok (some b)))
+        ++ List.replicate (1 + post.count (.next k) - bs.length) (Out.batch (.ok none)) ∧
+    bs.flatten.Perm (EpochSampler.samples sc (perm e)) := by
+  intro s k hn
+  refine ⟨?_, ?_⟩
+  · have := C14_seed_epoch_interleaved perm cfg sc pre post e₀ e
+    simp only at this
+    rw [this, h]
+    exact nextOf_range bs _ hn
+  · unfold epochBatches at h
+    rw [hdrop] at h
+    exact C14_loader_cover _ _ _ _ _ bs hB h
+
 /-- **C14_len_interleaved** (`C14_len_tracks_epoch` for interleaved scripts): at ANY point of ANY
 script - iterators alive and half consumed - `len(loader)` is the number of batches of the pass
 that would start now, and asking leaves no trace (the session is returned unchanged). -/
@@ -1091,6 +1138,11 @@ example : deliveredBy 1 (Session.exec exPerm exScript (Session.new exLoader)).1
     EpochSampler.iter, EpochSampler.samples, EpochSampler.islice, EpochSampler.everyNth, exLoader,
     exPerm, exCfg]
   decide
+/-- the hypotheses of `C14_interleaved_cover` on this loader: epoch 0 has two batches, `drop_last` is off -/
+example : epochBatches exCfg ⟨5, 5, 1, 3⟩ (exPerm 0) = .ok ([[1], [4]], none) := by
+  simp [epochBatches, EpochSampler.samples, EpochSampler.islice, EpochSampler.everyNth, exPerm, exCfg]
+  rfl
+example : exCfg.drop = false ∧ 0 < exCfg.B := by decide
 example : (Session.new exLoader).iters[0]? = none := rfl
 example : IOp.next 0 ∉ [IOp.len, IOp.peek 1, IOp.newIter, IOp.next 1] := by decide
 
